@@ -17,12 +17,20 @@ From MS Require Import Const.Model.
 
 Inductive target := TFun (x : name) | TLex (x : name) | TCap (x : name).
 
-(* the nearest binding outside the current function: skip everything up to and including the innermost
-   function scope, then look up lexically *)
+(* lexical lookup of the DECLARATION of x: entries registered by earlier `modify` statements are aliases of a
+   captured variable, not variables of the function they sit in *)
+Fixpoint lookup_decl (ss : scopes) (x : name) : option bool :=
+  match ss with
+  | [] => None
+  | s :: r => match contains_decl (vars s) x with Some c => Some c | None => lookup_decl r x end
+  end.
+
+(* the variable a function captured under the name x: its nearest declaration outside the current function
+   (skip everything up to and including the innermost function scope) *)
 Fixpoint lookup_outer (ss : scopes) (x : name) : option bool :=
   match ss with
   | [] => None
-  | s :: r => if is_function s then lookup_all r x else lookup_outer r x
+  | s :: r => if is_function s then lookup_decl r x else lookup_outer r x
   end.
 
 Definition resolves_const (ss : scopes) (t : target) : bool :=
@@ -35,7 +43,7 @@ Definition resolves_const (ss : scopes) (t : target) : bool :=
 (* what a statement binds in the innermost scope once it is over *)
 Definition effect (ss : scopes) (s : stmt) : scopes :=
   match s with
-  | SAssign c _ x _ => add ss x c
+  | SAssign c m x _ => if m then add_mod ss x else add ss x c
   | SUnpack c xs _ => add_all ss xs c
   | SClass x _ _ => add ss x true
   | SImport m => add ss m true
